@@ -1821,10 +1821,16 @@ def c18(tier, rng):
     for cp in range(1, 128):
         for tail in ('', 'a: 1\n', '\n- é\n', ' 中\n', '\r\n- \U0001F600\n'):
             texts.append(chr(cp) + tail)
+    # texts whose own first character is U+FEFF: a byte stream that starts with a byte-order mark is the
+    # BOM-carrying encoding of what follows the mark, so these are compared in their encodings *with* BOM only
+    bomtexts = ['\ufeff' + t for t in ['a: 1\n', '- é\n', '', 'k', '\ufeffx', '[1, 中]\n', '# c\nv\n']]
+    texts += bomtexts
     reqs, meta = [], []
     ref = run_impl([f'lod y e {hx(t)}' for t in texts])
     for t, rf in zip(texts, ref):
         for name, b in encodings_of(t):
+            if t.startswith('\ufeff') and not name.endswith('+bom'):
+                continue
             for trap in ('s', 'i', 'r', 'c') if len(t) < 12 else ('s',):
                 reqs.append(f'dec {trap} {hxb(b)}')
                 meta.append(('text', t, name, trap, rf))
@@ -1851,6 +1857,29 @@ def c18(tier, rng):
         trap = r.choice('sirc')
         reqs.append(f'dec {trap} {hxb(bytes(b))}')
         meta.append(('bytes', bytes(b), None, trap, None))
+    # a byte-order mark followed by anything (another mark, text in another encoding, noise), strict trap:
+    # the mark alone decides the encoding, and an independent decoder (Python's codecs) says whether the rest is
+    # well-formed in it and what text it is
+    BOMS = [(b'\xef\xbb\xbf', 'utf-8'), (b'\xff\xfe', 'utf-16-le'), (b'\xfe\xff', 'utf-16-be')]
+    bomcases = []
+    payload_texts = ['a: 1\n', 'é', '- 中\n', 'x', '']
+    for bom, enc in BOMS:
+        for bom2, enc2 in BOMS + [(b'', enc)]:
+            for pt in payload_texts:
+                for penc in {enc, enc2}:
+                    bomcases.append((bom, enc, bom2 + pt.encode(penc)))
+            for _ in range(6 if tier == 'quick' else 200):
+                bomcases.append((bom, enc, bom2 + bytes([r.below(256) for _ in range(r.randint(0, 6))])))
+    bomexp = []
+    for bom, enc, rest in bomcases:
+        try:
+            bomexp.append(rest.decode(enc, 'strict'))
+        except UnicodeDecodeError:
+            bomexp.append(None)
+    bomref = run_impl([f'lod y e {hx(t)}' if t is not None else 'cls 0' for t in bomexp])
+    for (bom, enc, rest), t, rf in zip(bomcases, bomexp, bomref):
+        reqs.append(f'dec s {hxb(bom + rest)}')
+        meta.append(('bom', bom + rest, enc, 's', (t, rf)))
     impl = run_impl(reqs)
     # correspondence of the sniffing model (Encoding.detectUtf16): every byte string of the run, plus
     # every two-byte prefix
@@ -1874,8 +1903,15 @@ def c18(tier, rng):
             why, sig = 'decoding does not terminate', 'C18:decode-loop-spins' if body == 'HANG' else None
         elif 'PANIC' in a:
             why = 'decoder panicked'
-        elif iters_of(a) > len(x if kind == 'bytes' else dict(encodings_of(x))[name]) + 8:
+        elif iters_of(a) > len(x if kind in ('bytes', 'bom') else dict(encodings_of(x))[name]) + 8:
             why = f'decode loop took {iters_of(a)} iterations'
+        elif kind == 'bom':
+            t, want = rf
+            if t is None:
+                if not body.startswith('DECERR'):
+                    why = f'strict trap: the bytes after the byte-order mark are not well-formed {name}, yet decoding did not fail'
+            elif '\0' not in t and body != want:
+                why = f'byte-order mark + {name} bytes: decoded documents differ from loading the decoded text directly'
         elif kind == 'text':
             want = rf if rf.startswith('OK') else rf
             if body != want:
@@ -1960,6 +1996,45 @@ def c20(tier, rng):
                 v = '|'.join(canon_tree_line('OK ' + part.replace(';', ' '))[3:].replace(' ', ';') if part not in ('-', 'PANIC', 'true', 'false') else part for part in v.split('|'))
                 out.append(k + '=' + v)
         return ' '.join(out)
+    # equality vs hashing across documents: the same values under different spellings (radix, sign, case, quoting,
+    # float notation, the same tag reached through different %TAG splits), eagerly and lazily loaded: every node of
+    # A against every node of B — equal nodes must hash equally, and a mapping finds a key exactly when it holds an equal one
+    GROUPS = [['1', '0x1', '0o1', '+1', '01'], ['1.0', '1.00', '1e0', '+1.0', '.1e1', '10e-1'], ['0.0', '-0.0', '0e0'], ['.inf', '+.inf', '.Inf', '.INF'],
+              ['.nan', '.NaN', '.NAN'], ['~', 'null', 'Null', 'NULL'], ['true', 'True', 'TRUE'], ['a', '"a"', "'a'", '!!str a'], ['"1"', "'1'", '!!str 1'],
+              ['-5', '-0x5' , '-05'], ['[1, a]', '[0x1, "a"]', '[+1, \'a\']'], ['{a: 1}', '{"a": 0x1}', "{'a': +1}"], ['!!int 1', '1'], ['!!float 1', '1.0'],
+              ['!e!app/k a', '!f!k a', '!<tag:example.com,2000:app/k> a'], ['!e!app/k', '!f!k'], ['!local a', '!local "a"'], ['""', "''", '!!str']]
+    HEAD = '%TAG !e! tag:example.com,2000:\n%TAG !f! tag:example.com,2000:app/\n---\n'
+    hr = rng.fork('heq')
+    hcases = []
+    for _ in range(1500 if tier == 'quick' else 60000):
+        gs = [hr.choice(GROUPS) for _ in range(hr.randint(2, 5))]
+        def doc():
+            pairs, seen = [], set()
+            for g in gs:
+                k = hr.choice(g)
+                if k in seen:
+                    continue
+                seen.add(k)
+                v = hr.choice(hr.choice(GROUPS))
+                pairs.append(f'? {k}\n: {v}\n')
+            return HEAD + ''.join(pairs)
+        nk = hr.choice(['y', 'y', 'yo', 'm'])
+        mode = hr.choice('el')
+        hcases.append((nk, mode, doc(), doc()))
+    hreqs = [f'heq {nk} {mode} {hx(a)} {hx(b)}' for nk, mode, a, b in hcases]
+    himpl = run_impl(hreqs)
+    for (nk, mode, a, b), q, o in zip(hcases, hreqs, himpl):
+        res.evaluations += 1
+        res.count('heq:' + o.split(' ')[0])
+        if o.startswith('ok'):
+            if o != 'ok 0':
+                res.nt(q)
+            continue
+        if o == 'LOADERR':
+            continue
+        res.oracle_failures.append({'sig': usig(q), 'what': ('nodes that compare equal hash differently' if o.startswith('EQHASH') else
+                                    'a mapping lookup by node disagrees with key equality' if o.startswith('LOOKUP') else 'heq failed') + ': ' + o[:200],
+                                    'reqs': [q], 'input': repr(a) + ' vs ' + repr(b) + f' kind {nk} mode {mode}'})
     for n, (text, probe, idx, nk, mode) in enumerate(cases):
         res.evaluations += 1
         a, d = impl[2 * n], impl[2 * n + 1]
@@ -2052,14 +2127,18 @@ def c11(tier, rng):
         if u.strip() and u not in units:
             units.append(u)
     mdepths = [10, 3000, 30000, 100000] if tier == 'quick' else [10, 1000, 6000, 30000, 100000, 200000]
-    for u in units:
-        shape = f'rep:{hx(u)}:{hx("a")}'
+    # flow units also come with their closers, so that the nesting is well-formed at every depth
+    closers = {'[': ']', '{': '}', '{a: ': '}', '[{a: ': '}]', '{a: [': ']}', '[[{a: ': '}]]', '{? ': '}', '[? ': ']', '[: ': ']', '{: ': '}'}
+    unit_shapes = [(u, f'rep:{hx(u)}:{hx("a")}') for u in units] + [(u, f'rep:{hx(u)}:{hx("a")}:{hx(c)}') for u, c in closers.items()]
+    for u, shape in unit_shapes:
         for d in mdepths:
             jobs.append(('iter', shape, d))
             jobs.append(('load', shape, d))
             # the loaders: below the depth where releasing the tree recurses too deep (recorded), and
             # without nested complex keys (quadratic, recorded under C01)
-            if d * max(1, sum(u.count(c) for c in '-?:[{')) <= 30000 and '?' not in u:
+            flowu = '[' in u or '{' in u
+            if (d * max(1, sum(u.count(c) for c in '-?:[{')) <= 30000 or flowu) and '?' not in u:
+                # flow units at every depth: the flow-depth limit turns them into an error long before the tree is deep
                 jobs.append(('loaddrop', shape, d))
     from concurrent.futures import ThreadPoolExecutor
     with ThreadPoolExecutor(max_workers=8) as ex:
@@ -2074,7 +2153,8 @@ def c11(tier, rng):
             sig = usig(f'{api}{shape}')
             # narrow signatures: the tree can be parsed (push interface survives the same input) but
             # releasing / emitting the deeply nested tree recurses once per level
-            if api == 'loaddrop' and status.get(('load', shape, d)) == 0 and d >= 50000:
+            blocky = shape in ('seq', 'map', 'key') or (shape.startswith('rep:') and not any(c in unhx(shape.split(':')[1]) for c in '[{'))
+            if api == 'loaddrop' and status.get(('load', shape, d)) == 0 and d >= 50000 and blocky:
                 sig = 'C11:drop-recursion-deep-tree'
             elif api == 'emit' and d >= 50000:
                 sig = 'C11:emit-recursion'
